@@ -46,8 +46,13 @@ try:
         real = []
         for p in fails:
             rel = p.replace("github.com/dapr/kit", ".")
-            rc2, out2 = sh(f"go test -vet=off -count=3 {flag} {rel}", wt)
-            if rc2 != 0: real.append(p)
+            # timing-sensitive packages (cron, crypto/spiffe*) flake under machine load on the clean tree as well: a package counts
+            # as failing only if none of 4 separate re-runs passes
+            ok_once = False
+            for _ in range(4):
+                rc2, out2 = sh(f"go test -vet=off -count=1 {flag} {rel}", wt)
+                if rc2 == 0: ok_once = True; break
+            if not ok_once: real.append(p)
         suite[mode] = {"failed_once": fails, "failed_on_3x_rerun": real, "build_failed": bfail}
     res["suite"] = suite
     expected_bf = {"github.com/dapr/kit/concurrency", "github.com/dapr/kit/events/ratelimiting", "github.com/dapr/kit/fswatcher"}
